@@ -603,21 +603,25 @@ theorem elabExpr_rel (hm : d.mem.length = d.nP) (hcl : Closed d sel gsel) (p : P
     simp only [elabExpr]
     exact .fail _ id _ _ (ih ent hwt)
 
+theorem find_map_aux (g : Nat → Val → Val) (K : Period → Period) (v : Nat) (p : Period) :
+    ∀ l : List (Nat × Period × Val),
+    ((l.map (fun i => (i.1, i.2.1, g i.1 i.2.2))).find? (fun i => decide (i.1 = v ∧ K i.2.1 = K p))).map (·.2.2)
+      = ((l.find? (fun i => decide (i.1 = v ∧ K i.2.1 = K p))).map (·.2.2)).map (g v)
+  | [] => rfl
+  | i :: l => by
+    rw [List.map_cons]
+    by_cases h : i.1 = v ∧ K i.2.1 = K p
+    · rw [List.find?_cons_of_pos (by simpa using h), List.find?_cons_of_pos (by simpa using h)]
+      simp [h.1]
+    · rw [List.find?_cons_of_neg (by simpa using h), List.find?_cons_of_neg (by simpa using h)]
+      exact find_map_aux g K v p l
+
+theorem storageKey_restrict (d : Decl) (sel gsel : List Nat) (v : Nat) (p : Period) :
+    storageKey (restrict d sel gsel) v p = storageKey d v p := rfl
+
 theorem inputLookup_restrict (d : Decl) (sel gsel : List Nat) (v : Nat) (p : Period) :
-    inputLookup (restrict d sel gsel) v p = (inputLookup d v p).map (selVar d sel gsel v) := by
-  unfold inputLookup
-  simp only [restrict, List.find?_map]
-  have hp : ((fun i : Nat × Period × Val => decide (i.1 = v ∧ i.2.1 = p)) ∘
-      fun i : Nat × Period × Val => (i.1, i.2.1, selVar d sel gsel i.1 i.2.2))
-      = (fun i : Nat × Period × Val => decide (i.1 = v ∧ i.2.1 = p)) := by
-    funext i; rfl
-  rw [hp]
-  cases hf : d.inputs.find? (fun i => decide (i.1 = v ∧ i.2.1 = p)) with
-  | none => rfl
-  | some i =>
-    have := List.find?_some hf
-    simp only [decide_eq_true_eq] at this
-    simp [this.1]
+    inputLookup (restrict d sel gsel) v p = (inputLookup d v p).map (selVar d sel gsel v) :=
+  find_map_aux (selVar d sel gsel) (storageKey d v) v p d.inputs
 
 theorem inputLookup_len (hwf : WF d) (v : Nat) (vv : Var) (hv : d.vars[v]? = some vv) (p : Period) (x : Val)
     (h : inputLookup d v p = some x) : x.length = d.size vv.entity := by
@@ -749,6 +753,14 @@ variable {d : Decl} {sel gsel : List Nat} {armed : List Nat}
 
 theorem mem_getD_mem (l : List Nat) (i : Nat) (h : i < l.length) : l.getD i 0 ∈ l := by
   simp [List.getD_eq_getElem?_getD, List.getElem?_eq_getElem h]
+
+/-- values stored under one slot (ETERNITY for eternal variables) mean the same in the part when
+    they do in the whole -/
+theorem slotCoherent_restrict (hwf : WF d) (hcl : Closed d sel gsel) (hk : SlotCoherent (elabSys d armed)) :
+    SlotCoherent (elabSys (restrict d sel gsel) armed) := by
+  intro v p p' h n
+  have h' : (elabSys d armed).ckey v p = (elabSys d armed).ckey v p' := h
+  rw [den_restrict hwf hcl, den_restrict hwf hcl, hk v p p' h' n]
 
 /-- a reordering of the whole population is a closed selection -/
 theorem closed_of_isPerm (hwf : WF d) (hp : IsPerm d sel gsel) : Closed d sel gsel := by
